@@ -222,6 +222,8 @@ def run(ctx):
                 continue
             # (1) attribute store on an instance / operation
             if isinstance(tgt, ast.Attribute) and d.get("op") in ("assign", "augassign", "del"):
+                if isinstance(tgt.value, ast.Name) and fi.params and tgt.value.id == fi.params[0] and (fi.is_classmethod or fi.name in ("__init_subclass__", "__class_getitem__")):
+                    continue  # `cls.<x> = ...`: an attribute of the class object, not of an instance
                 cls = ctx.res.classes_of(fi, tgt.value, rc)
                 hit = [c for c in cls if repo.is_subclass(c, inst.qualname) or repo.is_subclass(c, op.qualname)]
                 if hit and not (isinstance(tgt.value, ast.Name) and ctx.res._is_self(fi, tgt.value) and fi.cls is not None and fi.cls.qualname in (inst.qualname, op.qualname) and fi.name in ("__init__",)):
